@@ -36,7 +36,7 @@ fn class(t: &HashSet<D>, root: D, a: &HashSet<D>, absent: bool) -> &'static str 
 
 pub fn run(ctx: &Ctx) -> i32 {
     let th = ctx.tier.thorough();
-    let w = if th { 7 } else { 6 };
+    let w = if th { 8 } else { 7 };
     let mut trees = families::plain(w);
     let nplain = trees.len();
     trees.extend(families::marked(w));
